@@ -588,3 +588,183 @@ Proof.
   - rewrite Hx in *. rewrite Hstep. reflexivity.
   - rewrite Hx in *. rewrite Hstep. reflexivity.
 Qed.
+
+(* ---- conflicting UUIDs: a group row whose obj_id differs from the one the container knows *)
+Lemma step_row_uuid_conflict s i g l old :
+  (i_type i = TAddGroup \/ i_type i = TRemoveGroup) -> i_inc i = true -> i_list i = g :: l ->
+  i_objid i <> [] ->
+  uget (uu_groups (f_uu s)) g = Some old -> utruthy old = true -> uval_eqb (UGiven (i_objid i)) old = false ->
+  step_row s i = Err EUuidConflict.
+Proof.
+  intros Ht Hi Hl Hu Hg Hold Hne.
+  assert (Hrec : row_group_record s i = Err EUuidConflict).
+  { unfold row_group_record. destruct (i_objid i) as [|c u] eqn:Eu; [congruence|].
+    assert (Hr : record (f_uu s) (RGroup g (UGiven (c :: u))) = Err EUuidConflict).
+    { unfold record, record_uuid. rewrite Hg, Hold. cbn [utruthy andb]. rewrite Hne. cbn [negb].
+      rewrite raise_eq by in_list. reflexivity. }
+    destruct Ht as [Ht|Ht]; rewrite Ht, Hl, Hr; reflexivity. }
+  unfold step_row. rewrite Hi. cbn [negb].
+  destruct Ht as [Ht|Ht]; rewrite Ht; cbn [bind]; unfold row_action; rewrite Ht, Hl; cbn [bind];
+    unfold row_node; rewrite Hrec; reflexivity.
+Qed.
+
+Theorem detect_uuid_conflict fuel wb dm d t0 p r s bt u g l old :
+  compile fuel wb dm = Ok d ->
+  nth_error (rows_of wb t0) p = Some r -> (r_type r = TAddGroup \/ r_type r = TRemoveGroup) ->
+  evaluated_at fuel wb dm t0 p s bt ->
+  mapM (render (f_ctx s)) (r_list r) = Ok (g :: l) ->          (* the group the row names *)
+  uget (uu_groups (f_uu s)) g = Some old -> utruthy old = true ->   (* already has a uuid *)
+  u <> [] -> uval_eqb (UGiven u) old = false ->                (* a different one is injected *)
+  compile fuel (set_row wb t0 p (set_objid r u)) dm = Err EUuidConflict.
+Proof.
+  intros Hok Hr Ht Hev Hlist Hg Hold Hu Hne.
+  destruct (evaluated_ok _ _ _ _ _ _ _ _ _ Hok Hr Hev) as (Hinc & i & st & Hi & _).
+  apply instantiate_some in Hi as (_ & id & es & m & l0 & Hid & Hes & Hm & Hl & _).
+  rewrite Hlist in Hl. injection Hl as <-.
+  apply (row_fault_fatal fuel wb dm t0 p r (set_objid r u) s bt); try assumption; try reflexivity.
+  unfold visit_row. rewrite instantiate_unfold.
+  cbn [set_objid r_inc r_id r_edges r_main r_list r_type r_vars r_save r_objid r_noresp r_url r_headers r_dsheet r_drow r_targs].
+  rewrite Hinc, Hid, Hes, Hm, Hlist. cbn [i_type].
+  destruct Ht as [Ht|Ht]; rewrite Ht;
+    (rewrite (step_row_uuid_conflict s _ g l old); [reflexivity| | | | | | |]; cbn [i_type i_inc i_list i_objid]; auto).
+Qed.
+
+(* ================================================================ block structure *)
+Lemma of_kind_end_for_ok bt st : of_kind bt TEndFor = Ok st -> bt = BFor.
+Proof. destruct bt; cbn; intros H; try reflexivity; unfold crit in H; destruct (site_stops EWrongTerminator); discriminate. Qed.
+Lemma of_kind_end_block_ok bt st : of_kind bt TEndBlock = Ok st -> bt = BBlock.
+Proof. destruct bt; cbn; intros H; try reflexivity; unfold crit in H; destruct (site_stops EWrongTerminator); discriminate. Qed.
+
+Lemma instantiate_set_type c r t :
+  instantiate c (set_type r t) =
+  match instantiate c r with
+  | Ok (Some i) => Ok (Some (mkI t (i_id i) (i_edges i) (i_inc i) (i_main i) (i_list i) (i_vars i) (i_save i) (i_objid i)
+                                 (i_noresp i) (i_url i) (i_headers i) (i_dsheet i) (i_drow i) (i_targs i)))
+  | Ok None => Ok None
+  | Err e => Err e
+  end.
+Proof.
+  rewrite !instantiate_unfold. cbn [set_type r_inc r_id r_edges r_main r_list r_type r_vars r_save r_objid r_noresp r_url r_headers r_dsheet r_drow r_targs].
+  destruct (eval_inc c (r_inc r)) as [[|]|]; try reflexivity.
+  destruct (render c (r_id r)); [|reflexivity].
+  destruct (mapM (render_edge c) (r_edges r)); [|reflexivity].
+  destruct (render c (r_main r)); [|reflexivity].
+  destruct (mapM (render c) (r_list r)); reflexivity.
+Qed.
+
+(* the terminator of a block replaced by the terminator of the other kind *)
+Theorem detect_mismatched_terminator fuel wb dm d t0 p r t1 q1 s1 bt1 o1 :
+  compile fuel wb dm = Ok d ->
+  nth_error (rows_of wb t0) p = Some r ->
+  (r_type r = TEndFor \/ r_type r = TEndBlock) ->
+  (* the row is read at least once, omitted or not *)
+  compile_trap fuel wb dm t0 p false sel_read = Err (TTrap t1 q1 s1 bt1 o1) ->
+  compile fuel (set_row wb t0 p (set_type r (match r_type r with TEndFor => TEndBlock | _ => TEndFor end))) dm
+  = Err EWrongTerminator.
+Proof.
+  intros Hok Hr Ht Htrap.
+  destruct (trap_fires _ _ _ _ _ _ _ _ _ _ _ _ Htrap) as [Hreg _].
+  apply in_region_point in Hreg as [-> ->].
+  destruct (valid_visit_ok _ _ _ _ _ _ _ _ _ _ _ _ _ Hok Htrap) as [st Hst].
+  unfold visit_of in Hst. rewrite Hr in Hst.
+  set (t' := match r_type r with TEndFor => TEndBlock | _ => TEndFor end).
+  apply (fault_fatal fuel wb (set_row wb t0 p (set_type r t')) dm t0 p false sel_read)
+    with (t1 := t0) (q1 := p) (s1 := s1) (bt1 := bt1) (o1 := o1).
+  - apply erase_set_row.
+  - intros t q Hreg. unfold in_region in Hreg.
+    destruct (str_eqb t t0) eqn:E; cbn in Hreg.
+    + apply str_eqb_eq in E. subst t. rewrite rows_of_set_row_same.
+      apply nth_error_set_nth_other. intros ->. rewrite Nat.eqb_refl in Hreg. discriminate.
+    + rewrite rows_of_set_row_other by exact E. reflexivity.
+  - intros t q bt o s _ Hsel. discriminate.
+  - exact Htrap.
+  - unfold visit_of. rewrite rows_of_set_row_same, (nth_error_set_nth_same _ _ _ _ Hr).
+    unfold visit_row in *. destruct o1.
+    + cbn [set_type r_type]. subst t'.
+      destruct Ht as [Ht|Ht]; rewrite Ht in *.
+      * apply of_kind_end_for_ok in Hst. subst bt1. cbn. rewrite crit_eq by in_list. reflexivity.
+      * apply of_kind_end_block_ok in Hst. subst bt1. cbn. rewrite crit_eq by in_list. reflexivity.
+    + rewrite instantiate_set_type.
+      destruct (instantiate (f_ctx s1) r) as [[i|]|e] eqn:Hi; [| |discriminate].
+      * apply instantiate_some in Hi as (_ & id & es & m & l & _ & _ & _ & _ & ->).
+        cbn [i_type] in *. subst t'.
+        destruct Ht as [Ht|Ht]; rewrite Ht in *.
+        -- apply of_kind_end_for_ok in Hst. subst bt1. cbn. rewrite crit_eq by in_list. reflexivity.
+        -- apply of_kind_end_block_ok in Hst. subst bt1. cbn. rewrite crit_eq by in_list. reflexivity.
+      * cbn [set_type r_type]. subst t'.
+        destruct Ht as [Ht|Ht]; rewrite Ht in *.
+        -- apply of_kind_end_for_ok in Hst. subst bt1. cbn. rewrite crit_eq by in_list. reflexivity.
+        -- apply of_kind_end_block_ok in Hst. subst bt1. cbn. rewrite crit_eq by in_list. reflexivity.
+Qed.
+
+(* the sheet cut off inside a block: rows p, p+1, ... of sheet t0 removed *)
+Fixpoint truncate_sheet (wb : workbook) (t0 : str) (p : nat) : workbook :=
+  match wb with
+  | [] => []
+  | (n, s) :: rest =>
+    if str_eqb n t0
+    then (n, match s with SFlow rows => SFlow (firstn p rows) | _ => s end) :: rest
+    else (n, s) :: truncate_sheet rest t0 p
+  end.
+
+Lemma erase_truncate wb t0 p : erase (truncate_sheet wb t0 p) = erase wb.
+Proof.
+  unfold erase. induction wb as [|[n s] rest IH]; cbn; [reflexivity|].
+  destruct (str_eqb n t0); cbn.
+  - destruct s; reflexivity.
+  - f_equal. exact IH.
+Qed.
+
+Lemma rows_of_truncate_same wb t0 p : rows_of (truncate_sheet wb t0 p) t0 = firstn p (rows_of wb t0).
+Proof.
+  unfold rows_of. induction wb as [|[n s] rest IH]; cbn.
+  - destruct p; reflexivity.
+  - destruct (str_eqb n t0) eqn:E; cbn; rewrite E.
+    + destruct s; try reflexivity; destruct p; reflexivity.
+    + exact IH.
+Qed.
+
+Lemma rows_of_truncate_other wb t0 p t : str_eqb t t0 = false -> rows_of (truncate_sheet wb t0 p) t = rows_of wb t.
+Proof.
+  intros Hne. unfold rows_of. induction wb as [|[n s] rest IH]; cbn; [reflexivity|].
+  destruct (str_eqb n t0) eqn:E; cbn.
+  - apply str_eqb_eq in E. subst n.
+    assert (Ht : str_eqb t0 t = false).
+    { destruct (str_eqb t0 t) eqn:E2; [|reflexivity]. apply str_eqb_eq in E2. subst t. rewrite str_eqb_refl in Hne. discriminate. }
+    rewrite Ht. reflexivity.
+  - destruct (str_eqb n t); [reflexivity|exact IH].
+Qed.
+
+Lemma nth_error_firstn_lt {T} (l : list T) p q : q < p -> nth_error (firstn p l) q = nth_error l q.
+Proof.
+  revert p q. induction l as [|a l IH]; intros [|p] [|q] H; cbn; try reflexivity; try lia.
+  apply IH. lia.
+Qed.
+Lemma nth_error_firstn_ge {T} (l : list T) p q : p <= q -> nth_error (firstn p l) q = None.
+Proof.
+  intros H. apply nth_error_None. rewrite firstn_length. lia.
+Qed.
+
+Theorem detect_unterminated_block fuel wb dm t0 p t1 q1 s1 bt1 o1 :
+  (* the first read at or after position p of sheet t0 happens inside a block *)
+  compile_trap fuel wb dm t0 p true sel_read = Err (TTrap t1 q1 s1 bt1 o1) ->
+  bt1 <> BRoot ->
+  compile fuel (truncate_sheet wb t0 p) dm = Err EUnterminated.
+Proof.
+  intros Htrap Hbt.
+  destruct (trap_fires _ _ _ _ _ _ _ _ _ _ _ _ Htrap) as [Hreg _].
+  unfold in_region in Hreg. apply andb_true_iff in Hreg as [Ht Hq].
+  apply str_eqb_eq in Ht. subst t1. apply Nat.leb_le in Hq.
+  apply (fault_fatal fuel wb (truncate_sheet wb t0 p) dm t0 p true sel_read)
+    with (t1 := t0) (q1 := q1) (s1 := s1) (bt1 := bt1) (o1 := o1).
+  - apply erase_truncate.
+  - intros t q Hreg. unfold in_region in Hreg.
+    destruct (str_eqb t t0) eqn:E; cbn in Hreg.
+    + apply str_eqb_eq in E. subst t. rewrite rows_of_truncate_same.
+      apply nth_error_firstn_lt. apply Nat.leb_gt in Hreg. exact Hreg.
+    + rewrite rows_of_truncate_other by exact E. reflexivity.
+  - intros t q bt o s _ Hsel. discriminate.
+  - exact Htrap.
+  - unfold visit_of. rewrite rows_of_truncate_same, nth_error_firstn_ge by exact Hq.
+    unfold visit_row. destruct bt1; [congruence| |]; rewrite crit_eq by in_list; reflexivity.
+Qed.
